@@ -44,7 +44,7 @@ def run_prop(prop, tier):
     bres = build(cfg['theorems'])
     model = Model()
     R = rng(prop, 'histories')
-    n = 250 if tier == 'quick' else 2500
+    n = 700 if tier == 'quick' else 5000
     hists = [H.gen_history(R, tier) for _ in range(n)]
     mreps = model.ask([H.hist_req(h) for h in hists]) if bres.ok else [None] * n
     tmp = tempfile.mkdtemp(prefix='verif_hist_')
@@ -129,7 +129,7 @@ def run_prop(prop, tier):
     finally:
         shutil.rmtree(tmp, ignore_errors=True)
     if prop in ('C07', 'C09'):
-        specs = list(wf.generate(prop, tier, 80, 800))
+        specs = list(wf.generate(prop, tier, 200, 1500))
         runs = wf.execute(specs, model, bres, chk)
         for r in runs:
             chk.case('whole-file', nontrivial_key=('wf', r.index) if r.res['status'] == 'ok' else None,
